@@ -28,7 +28,7 @@ import (
 // ---------------------------------------------------------------- spec
 
 type C13Op struct {
-	K string `json:"k"`           // newrow | rowadd | addrow | append | items | sep | headers | reg | hcol | stamp | rowaddfrom
+	K string `json:"k"`           // newrow | rowadd | addrow | append | items | sep | headers | reg | hcol | stamp | rowaddfrom | peer | take
 	R int    `json:"r,omitempty"` // row id (rowadd, addrow; reg on row / cell)
 	N int    `json:"n,omitempty"` // number of items (items, headers); column number (reg on column, hcol); cell column (reg on cell)
 	// reg only
@@ -83,6 +83,15 @@ type C13Spec struct {
 	// callback - a table in a cell.  Both logs are judged, each against its own
 	// table's expected trace.
 	Inner *C13Spec `json:"inner,omitempty"`
+	// A second table B that shares rows with this one (c13_more.go): B's
+	// operations run where this table's history says "peer" (the rest after
+	// this table's last operation), B's operation "take" makes a row of this
+	// table a row of B's too (B then adds it with addrow like any row it built).
+	// Both tables have recording callbacks of their own, both undergo their
+	// passes (Order: "" = this table's passes first, "peerfirst", "alt" =
+	// alternating), both logs are judged, each against its own table's history.
+	Peer  *C13Spec `json:"peer,omitempty"`
+	Order string   `json:"order,omitempty"`
 }
 
 var c13Owners = []string{"table", "column", "row", "cell"}
@@ -91,7 +100,7 @@ var c13Targets = []string{"itself", "cell", "row"}
 
 func (o C13Op) allocates() bool {
 	switch o.K {
-	case "newrow", "append", "items", "sep", "headers":
+	case "newrow", "append", "items", "sep", "headers", "take":
 		return true
 	}
 	return false
@@ -105,6 +114,8 @@ func (o C13Op) String() string {
 		return fmt.Sprintf("%s(%d)", o.K, o.N)
 	case "hcol":
 		return fmt.Sprintf("h:=column%d", o.N)
+	case "take":
+		return fmt.Sprintf("take(row%d of the other table)", o.R)
 	case "stamp":
 		return "s:=NewCell"
 	case "rowaddfrom":
@@ -411,7 +422,7 @@ func (s *c13Sim) step(o C13Op) {
 	idx := s.opIndex
 	s.opIndex++
 	switch o.K {
-	case "hcol", "stamp", "rowaddfrom":
+	case "hcol", "stamp", "rowaddfrom", "peer", "take":
 	case "reg":
 		if o.Owner != "stamp" {
 			s.coq = append(s.coq, o.Coq())
@@ -421,6 +432,15 @@ func (s *c13Sim) step(o C13Op) {
 		s.coq = append(s.coq, o.Coq())
 	}
 	switch o.K {
+	case "take":
+		// a row that exists already (built on behalf of another table) becomes
+		// known to this table: in this table's history, a row built detached
+		// with the o.N cells it has
+		s.coq = append(s.coq, C13Op{K: "newrow"}.Coq())
+		s.rows = append(s.rows, c13SimRow{cells: o.N})
+		for i := 0; i < o.N; i++ {
+			s.coq = append(s.coq, C13Op{K: "rowadd", R: id}.Coq())
+		}
 	case "stamp":
 		s.stamps = append(s.stamps, nil)
 	case "rowaddfrom":
@@ -496,6 +516,25 @@ func (s *c13Sim) step(o C13Op) {
 			s.regerr = append(s.regerr, 1)
 		}
 	}
+}
+
+// mirror: a registration made through the other table of a pair upon a row
+// (or a cell of a row) that this table holds too.  The callback is stored on
+// the row, so it is one of this table's registrations from now on; it is not
+// one of this table's operations.
+func (s *c13Sim) mirror(q C13Op) {
+	q.H, q.origin = 0, -1
+	s.regs = append(s.regs, q)
+	s.regerr = append(s.regerr, 0)
+	s.coq = append(s.coq, q.Coq())
+	s.coqRegOrigin = append(s.coqRegOrigin, -1)
+}
+
+// otherAddRow: the other table of a pair adds row r, which this table knows
+// too.  Nothing of this table changes (Props/C13.v, c13_other_table); the
+// history says that it happened, and when.
+func (s *c13Sim) otherAddRow(r int) {
+	s.coq = append(s.coq, "OOtherAddRow "+cqNat(r))
 }
 
 func (s *c13Sim) step1RowAdd(rid int) {
@@ -597,7 +636,18 @@ type c13Env struct {
 	wrappers  map[string]c13Renderer   // rendering wrappers made once per run
 	inherited map[[2]int]map[int]bool  // properties a cell had already when its value was added
 	seenCells map[[2]int]*tabular.Cell // the object each cell-target invocation received
+
+	// two tables sharing rows: the rows (by id) that the other table of the pair
+	// holds too, and the pair's common state
+	shared map[int]bool
+	group  *c13Group
 }
+
+// c13Group: two tables that share rows.  A callback stored on a shared row (or
+// on one of its cells) fires in the passes and additions of both tables, so an
+// invocation belongs to the table the harness is operating at that moment:
+// that table's log takes it and that table's ids name the object received.
+type c13Group struct{ active *c13Env }
 
 type c13Renderer interface {
 	Render() (string, error)
@@ -722,6 +772,9 @@ func (e *c13Env) nestedPass(via string) {
 }
 
 func (e *c13Env) invoked(id int, fail bool, boom int, nest bool, o tabular.PropertyOwner) error {
+	if e.group != nil && e.group.active != nil {
+		e = e.group.active
+	}
 	x := e.identify(o)
 	if p, ok := o.(*tabular.Cell); ok && x.K == "cell" {
 		if e.seenCells == nil {
@@ -1000,27 +1053,31 @@ type c13Obs struct {
 	regCode  map[int]int
 }
 
-// c13Exec replays the history on a fresh table.  With buildOnly it stops after
-// the operations (the table is then rendered from inside another table's
-// callbacks) and env.finish completes the observation.
-func c13Exec(sp C13Spec, inner *c13Env, buildOnly bool) (ob *c13Obs, env *c13Env) {
-	env = &c13Env{t: tabular.New(), hdrID: -1, objs: map[int]tabular.PropertyCallback{}, twins: map[*c13Twin]c13TwinInfo{}, inherited: map[[2]int]map[int]bool{}}
+// c13Runner replays one table's history step by step on the real library
+// (c13Exec drives one runner; a pair of tables sharing rows is two runners
+// driven in an interleaved order, c13_more.go).
+type c13Runner struct {
+	sp   C13Spec
+	env  *c13Env
+	ob   *c13Obs
+	cids []int
+	// pairs of tables only: the peer table executes its next operation; the
+	// *Row behind row id R of the other table
+	onPeer  func()
+	takeRow func(R int) *tabular.Row
+}
+
+func c13NewRunner(sp C13Spec, inner *c13Env) *c13Runner {
+	env := &c13Env{t: tabular.New(), hdrID: -1, objs: map[int]tabular.PropertyCallback{}, twins: map[*c13Twin]c13TwinInfo{}, inherited: map[[2]int]map[int]bool{}}
 	env.inner = inner
 	if sp.Inner != nil {
 		env.innerVia = sp.Inner.Via
 	}
-	ob = &c13Obs{}
+	ob := &c13Obs{}
 	ob.Kind = "ok"
 	ob.regCode = map[int]int{}
-	defer func() {
-		if r := recover(); r != nil {
-			ob.Kind = "panic"
-			ob.Panic = fmt.Sprint(r)
-		}
-		ob.add, ob.rnd = env.addLog, env.rndLog
-	}()
+	x := &c13Runner{sp: sp, env: env, ob: ob}
 	t := env.t
-
 	// does the history name a header row as owner (or extend one)?  Then its pointer must be captured.
 	{
 		var isHdr []bool
@@ -1037,163 +1094,317 @@ func c13Exec(sp C13Spec, inner *c13Env, buildOnly bool) (ob *c13Obs, env *c13Env
 			t.RegisterPropertyCallback(t, tabular.CB_AT_ADD, tabular.CB_ON_ROW, &c13Capture{env})
 		}
 	}
+	return x
+}
 
-	alloc := func() int {
-		env.rows = append(env.rows, nil)
-		return len(env.rows) - 1
-	}
-	cids := []int{}
-	for opi, o := range sp.Ops {
-		switch o.K {
+func (x *c13Runner) alloc() int {
+	x.env.rows = append(x.env.rows, nil)
+	return len(x.env.rows) - 1
+}
+
+// doOp executes operation number opi of the history
+func (x *c13Runner) doOp(opi int, o C13Op) {
+	env, ob, t := x.env, x.ob, x.env.t
+	alloc := x.alloc
+	switch o.K {
+	case "peer":
+		if x.onPeer != nil {
+			x.onPeer()
+		}
+	case "take":
+		id := alloc()
+		if x.takeRow == nil {
+			panic("harness: no table to take a row from")
+		}
+		env.rows[id] = x.takeRow(o.R)
+		if env.rows[id] == nil {
+			panic("harness: row pointer unknown")
+		}
+		if env.shared == nil {
+			env.shared = map[int]bool{}
+		}
+		env.shared[id] = true
+	case "stamp":
+		c := tabular.NewCell("s")
+		env.stamps = append(env.stamps, &c)
+	case "rowaddfrom":
+		dest := env.rowPtr(o.R)
+		if dest == nil {
+			panic("harness: row pointer unknown")
+		}
+		var v tabular.Cell
+		switch o.From {
 		case "stamp":
-			c := tabular.NewCell("s")
-			env.stamps = append(env.stamps, &c)
-		case "rowaddfrom":
-			dest := env.rowPtr(o.R)
-			if dest == nil {
-				panic("harness: row pointer unknown")
+			v = *env.stamps[o.S]
+		case "cell":
+			p := env.cellPtr(o.SR, o.SC)
+			if p == nil {
+				panic("harness: source cell not reachable")
 			}
-			var v tabular.Cell
-			switch o.From {
-			case "stamp":
-				v = *env.stamps[o.S]
-			case "cell":
-				p := env.cellPtr(o.SR, o.SC)
-				if p == nil {
-					panic("harness: source cell not reachable")
-				}
-				v = *p
-			default:
-				if env.other == nil {
-					env.other = tabular.New()
-					env.other.AddRowItems("f", "f", "f")
-					env.other.InvokeRenderCallbacks()
-				}
-				p, err := env.other.CellAt(tabular.CellLocation{Row: 1, Column: o.SC})
-				if err != nil {
-					panic("harness: foreign cell")
-				}
-				v = *p
+			v = *p
+		default:
+			if env.other == nil {
+				env.other = tabular.New()
+				env.other.AddRowItems("f", "f", "f")
+				env.other.InvokeRenderCallbacks()
 			}
-			if dest.Cells() != nil {
-				inh := map[int]bool{}
-				for _, id := range cids {
-					if v.GetProperty(c13Key(id)) != nil {
-						inh[id] = true
+			p, err := env.other.CellAt(tabular.CellLocation{Row: 1, Column: o.SC})
+			if err != nil {
+				panic("harness: foreign cell")
+			}
+			v = *p
+		}
+		if dest.Cells() != nil {
+			inh := map[int]bool{}
+			for _, id := range x.cids {
+				if v.GetProperty(c13Key(id)) != nil {
+					inh[id] = true
+				}
+			}
+			env.inherited[[2]int{o.R, len(dest.Cells()) + 1}] = inh
+		}
+		dest.Add(v)
+	case "newrow":
+		id := alloc()
+		env.rows[id] = tabular.NewRow()
+	case "rowadd":
+		if r := env.rowPtr(o.R); r != nil {
+			r.Add(tabular.NewCell("x"))
+		} else {
+			panic("harness: row pointer unknown")
+		}
+	case "addrow":
+		env.order = append(env.order, o.R)
+		t.AddRow(env.rowPtr(o.R))
+	case "append":
+		id := alloc()
+		env.order = append(env.order, id)
+		env.rows[id] = t.AppendNewRow()
+	case "items":
+		id := alloc()
+		env.order = append(env.order, id)
+		items := make([]interface{}, o.N)
+		for i := range items {
+			items[i] = "x"
+		}
+		t.AddRowItems(items...)
+		env.rowPtr(id)
+	case "sep":
+		id := alloc()
+		env.order = append(env.order, id)
+		t.AddSeparator()
+		env.rowPtr(id)
+	case "headers":
+		id := alloc()
+		env.hdrID = id
+		items := make([]interface{}, o.N)
+		for i := range items {
+			items[i] = "h"
+		}
+		t.AddHeaders(items...)
+	case "hcol":
+		if c := t.Column(o.N); c != nil {
+			env.handles = append(env.handles, c13Handle{o.N, c})
+		} else {
+			env.handles = append(env.handles, c13Handle{o.N, nil})
+		}
+	case "reg":
+		x.cids = append(x.cids, o.CB)
+		var owner tabular.PropertyOwner
+		switch o.Owner {
+		case "table":
+			owner = t
+		case "stamp":
+			owner = env.stamps[o.N]
+		case "column":
+			if o.H > 0 {
+				owner = env.handles[o.H-1].h
+			} else if c := t.Column(o.N); c != nil {
+				owner = c
+			}
+		case "row":
+			if r := env.rowPtr(o.R); r != nil {
+				owner = r
+			}
+		case "cell":
+			if c := env.cellPtr(o.R, o.N); c != nil {
+				owner = c
+			}
+		}
+		if owner == nil {
+			ob.regCode[opi] = 2
+			return
+		}
+		var err error
+		rec := env.callback(o)
+		tg := tabular.CB_ON_ITSELF
+		switch o.Target {
+		case "cell":
+			tg = tabular.CB_ON_CELL
+		case "row":
+			tg = tabular.CB_ON_ROW
+		}
+		var via tabular.Table = t
+		switch o.Through {
+		case "other":
+			if env.helper == nil {
+				env.helper = tabular.New()
+			}
+			via = env.helper
+		case "wrapper":
+			via = csv.Wrap(t)
+		}
+		switch o.Time {
+		case "add":
+			err = via.RegisterPropertyCallback(owner, tabular.CB_AT_ADD, tg, rec)
+		case "pre":
+			err = via.RegisterPropertyCallback(owner, tabular.CB_AT_RENDER_PRECELL, tg, rec)
+		case "render":
+			err = via.RegisterPropertyCallback(owner, tabular.CB_AT_RENDER, tg, rec)
+		default:
+			err = via.RegisterPropertyCallback(owner, tabular.CB_AT_RENDER_POSTCELL, tg, rec)
+		}
+		if err != nil {
+			ob.regCode[opi] = 1
+		} else {
+			ob.regCode[opi] = 0
+		}
+	}
+}
+
+// renderPass asks for render pass number i (0-based) through sp.Via
+func (x *c13Runner) renderPass(i int) {
+	env, ob, sp := x.env, x.ob, x.sp
+	env.pass = i + 1
+	before := len(env.rndLog)
+	aborted := false
+	func() {
+		defer func() {
+			if r := recover(); r != nil {
+				if _, ok := r.(c13Boom); ok {
+					aborted = true // a recording callback panicked on purpose; the caller (we) recovers
+					return
+				}
+				if sp.Via != "" {
+					// a panic further down in the renderer (C05/C09's subject): the callbacks ran first
+					return
+				}
+				panic(r)
+			}
+		}()
+		env.renderVia(sp.Via) // error (e.g. no columns) or not: one pass of the callbacks ran first
+	}()
+	if aborted {
+		ob.Aborted = append(ob.Aborted, c13Strs(env.rndLog[before:])...)
+		env.rndLog = env.rndLog[:before]
+	} else {
+		ob.NormalPasses++
+	}
+}
+
+// readBack - liveness: read every callback's property back, through the table
+func (x *c13Runner) readBack() {
+	env, ob, t := x.env, x.ob, x.env.t
+	cids := x.cids
+	sort.Ints(cids)
+	{
+		var u []int
+		for i, id := range cids {
+			if i == 0 || id != cids[i-1] {
+				u = append(u, id)
+			}
+		}
+		cids = u
+	}
+	has := func(o tabular.PropertyOwner, id int) bool { return o.GetProperty(c13Key(id)) != nil }
+	logged := map[string]bool{}
+	for _, e := range env.addLog {
+		logged[e.key()] = true
+	}
+	for _, e := range env.rndLog {
+		logged[e.key()] = true
+	}
+	for _, id := range cids {
+		if has(t, id) {
+			ob.props = append(ob.props, c13Ev{CB: id, X: c13Tgt{K: "table"}})
+		}
+		for n := 0; n <= t.NColumns(); n++ {
+			if c := t.Column(n); c != nil && has(c, id) {
+				// ... and through every handle to that column taken earlier
+				live := true
+				for _, h := range env.handles {
+					if h.n == n && (h.h == nil || !has(h.h, id)) {
+						live = false
 					}
 				}
-				env.inherited[[2]int{o.R, len(dest.Cells()) + 1}] = inh
-			}
-			dest.Add(v)
-		case "newrow":
-			id := alloc()
-			env.rows[id] = tabular.NewRow()
-		case "rowadd":
-			if r := env.rowPtr(o.R); r != nil {
-				r.Add(tabular.NewCell("x"))
-			} else {
-				panic("harness: row pointer unknown")
-			}
-		case "addrow":
-			env.order = append(env.order, o.R)
-			t.AddRow(env.rowPtr(o.R))
-		case "append":
-			id := alloc()
-			env.order = append(env.order, id)
-			env.rows[id] = t.AppendNewRow()
-		case "items":
-			id := alloc()
-			env.order = append(env.order, id)
-			items := make([]interface{}, o.N)
-			for i := range items {
-				items[i] = "x"
-			}
-			t.AddRowItems(items...)
-			env.rowPtr(id)
-		case "sep":
-			id := alloc()
-			env.order = append(env.order, id)
-			t.AddSeparator()
-			env.rowPtr(id)
-		case "headers":
-			id := alloc()
-			env.hdrID = id
-			items := make([]interface{}, o.N)
-			for i := range items {
-				items[i] = "h"
-			}
-			t.AddHeaders(items...)
-		case "hcol":
-			if c := t.Column(o.N); c != nil {
-				env.handles = append(env.handles, c13Handle{o.N, c})
-			} else {
-				env.handles = append(env.handles, c13Handle{o.N, nil})
-			}
-		case "reg":
-			cids = append(cids, o.CB)
-			var owner tabular.PropertyOwner
-			switch o.Owner {
-			case "table":
-				owner = t
-			case "stamp":
-				owner = env.stamps[o.N]
-			case "column":
-				if o.H > 0 {
-					owner = env.handles[o.H-1].h
-				} else if c := t.Column(o.N); c != nil {
-					owner = c
-				}
-			case "row":
-				if r := env.rowPtr(o.R); r != nil {
-					owner = r
-				}
-			case "cell":
-				if c := env.cellPtr(o.R, o.N); c != nil {
-					owner = c
+				if live {
+					ob.props = append(ob.props, c13Ev{CB: id, X: c13Tgt{K: "col", A: n}})
 				}
 			}
-			if owner == nil {
-				ob.regCode[opi] = 2
+		}
+		for rid := range env.rows {
+			r := env.rowPtr(rid)
+			if r == nil {
 				continue
 			}
-			var err error
-			rec := env.callback(o)
-			tg := tabular.CB_ON_ITSELF
-			switch o.Target {
-			case "cell":
-				tg = tabular.CB_ON_CELL
-			case "row":
-				tg = tabular.CB_ON_ROW
-			}
-			var via tabular.Table = t
-			switch o.Through {
-			case "other":
-				if env.helper == nil {
-					env.helper = tabular.New()
+			if has(r, id) {
+				ev := c13Ev{CB: id, X: c13Tgt{K: "row", A: rid}}
+				// a row that another table holds too also carries what that
+				// table's passes set: only what this table's own invocations
+				// set is read back
+				if !(env.shared[rid] && !logged[ev.key()]) {
+					ob.props = append(ob.props, ev)
 				}
-				via = env.helper
-			case "wrapper":
-				via = csv.Wrap(t)
 			}
-			switch o.Time {
-			case "add":
-				err = via.RegisterPropertyCallback(owner, tabular.CB_AT_ADD, tg, rec)
-			case "pre":
-				err = via.RegisterPropertyCallback(owner, tabular.CB_AT_RENDER_PRECELL, tg, rec)
-			case "render":
-				err = via.RegisterPropertyCallback(owner, tabular.CB_AT_RENDER, tg, rec)
-			default:
-				err = via.RegisterPropertyCallback(owner, tabular.CB_AT_RENDER_POSTCELL, tg, rec)
+			for c := 1; c <= len(r.Cells()); c++ {
+				if p := env.cellPtr(rid, c); p != nil && has(p, id) {
+					ev := c13Ev{CB: id, X: c13Tgt{K: "cell", A: rid, B: c}}
+					if env.inherited[[2]int{rid, c}][id] && !logged[ev.key()] {
+						continue // the value carried this property when it was added: no callback set it here
+					}
+					if env.shared[rid] && !logged[ev.key()] {
+						continue
+					}
+					ob.props = append(ob.props, ev)
+				}
 			}
-			if err != nil {
-				ob.regCode[opi] = 1
-			} else {
-				ob.regCode[opi] = 0
+		}
+		// cells of a header row that a later AddHeaders replaced and whose row
+		// pointer the harness never learnt: no longer reachable through the
+		// table; read through the object the callbacks were handed
+		for rc, p := range env.seenCells {
+			if rc[0] != env.hdrID && rc[0] < len(env.rows) && env.rowPtr(rc[0]) == nil && has(p, id) {
+				ob.props = append(ob.props, c13Ev{CB: id, X: c13Tgt{K: "cell", A: rc[0], B: rc[1]}})
+			}
+		}
+		// a header row whose pointer no callback ever received: its cells are still reachable
+		if env.hdrID >= 0 && env.rows[env.hdrID] == nil {
+			hs := t.Headers()
+			for i := range hs {
+				if has(&hs[i], id) {
+					ob.props = append(ob.props, c13Ev{CB: id, X: c13Tgt{K: "cell", A: env.hdrID, B: i + 1}})
+				}
 			}
 		}
 	}
+}
 
-	readBack := func() {}
+// c13Exec replays the history on a fresh table.  With buildOnly it stops after
+// the operations (the table is then rendered from inside another table's
+// callbacks) and env.finish completes the observation.
+func c13Exec(sp C13Spec, inner *c13Env, buildOnly bool) (ob *c13Obs, env *c13Env) {
+	x := c13NewRunner(sp, inner)
+	ob, env = x.ob, x.env
+	defer func() {
+		if r := recover(); r != nil {
+			ob.Kind = "panic"
+			ob.Panic = fmt.Sprint(r)
+		}
+		ob.add, ob.rnd = env.addLog, env.rndLog
+	}()
+	for opi, o := range sp.Ops {
+		x.doOp(opi, o)
+	}
 	if buildOnly {
 		env.finish = func() {
 			defer func() {
@@ -1204,116 +1415,16 @@ func c13Exec(sp C13Spec, inner *c13Env, buildOnly bool) (ob *c13Obs, env *c13Env
 				ob.add, ob.rnd = env.addLog, env.rndLog
 			}()
 			ob.NormalPasses = env.nested
-			readBack()
+			x.readBack()
 		}
 	}
 	env.render = true
 	for i := 0; i < sp.Passes && !buildOnly; i++ {
-		env.pass = i + 1
-		before := len(env.rndLog)
-		aborted := false
-		func() {
-			defer func() {
-				if r := recover(); r != nil {
-					if _, ok := r.(c13Boom); ok {
-						aborted = true // a recording callback panicked on purpose; the caller (we) recovers
-						return
-					}
-					if sp.Via != "" {
-						// a panic further down in the renderer (C05/C09's subject): the callbacks ran first
-						return
-					}
-					panic(r)
-				}
-			}()
-			env.renderVia(sp.Via) // error (e.g. no columns) or not: one pass of the callbacks ran first
-		}()
-		if aborted {
-			ob.Aborted = append(ob.Aborted, c13Strs(env.rndLog[before:])...)
-			env.rndLog = env.rndLog[:before]
-		} else {
-			ob.NormalPasses++
-		}
+		x.renderPass(i)
 	}
 	env.render = false
-
-	// liveness: read every callback's property back, through the table
-	readBack = func() {
-		sort.Ints(cids)
-		{
-			var u []int
-			for i, id := range cids {
-				if i == 0 || id != cids[i-1] {
-					u = append(u, id)
-				}
-			}
-			cids = u
-		}
-		has := func(o tabular.PropertyOwner, id int) bool { return o.GetProperty(c13Key(id)) != nil }
-		logged := map[string]bool{}
-		for _, e := range env.addLog {
-			logged[e.key()] = true
-		}
-		for _, e := range env.rndLog {
-			logged[e.key()] = true
-		}
-		for _, id := range cids {
-			if has(t, id) {
-				ob.props = append(ob.props, c13Ev{CB: id, X: c13Tgt{K: "table"}})
-			}
-			for n := 0; n <= t.NColumns(); n++ {
-				if c := t.Column(n); c != nil && has(c, id) {
-					// ... and through every handle to that column taken earlier
-					live := true
-					for _, h := range env.handles {
-						if h.n == n && (h.h == nil || !has(h.h, id)) {
-							live = false
-						}
-					}
-					if live {
-						ob.props = append(ob.props, c13Ev{CB: id, X: c13Tgt{K: "col", A: n}})
-					}
-				}
-			}
-			for rid := range env.rows {
-				r := env.rowPtr(rid)
-				if r == nil {
-					continue
-				}
-				if has(r, id) {
-					ob.props = append(ob.props, c13Ev{CB: id, X: c13Tgt{K: "row", A: rid}})
-				}
-				for c := 1; c <= len(r.Cells()); c++ {
-					if p := env.cellPtr(rid, c); p != nil && has(p, id) {
-						ev := c13Ev{CB: id, X: c13Tgt{K: "cell", A: rid, B: c}}
-						if env.inherited[[2]int{rid, c}][id] && !logged[ev.key()] {
-							continue // the value carried this property when it was added: no callback set it here
-						}
-						ob.props = append(ob.props, ev)
-					}
-				}
-			}
-			// cells of a header row that a later AddHeaders replaced and whose row
-			// pointer the harness never learnt: no longer reachable through the
-			// table; read through the object the callbacks were handed
-			for rc, p := range env.seenCells {
-				if rc[0] != env.hdrID && rc[0] < len(env.rows) && env.rowPtr(rc[0]) == nil && has(p, id) {
-					ob.props = append(ob.props, c13Ev{CB: id, X: c13Tgt{K: "cell", A: rc[0], B: rc[1]}})
-				}
-			}
-			// a header row whose pointer no callback ever received: its cells are still reachable
-			if env.hdrID >= 0 && env.rows[env.hdrID] == nil {
-				hs := t.Headers()
-				for i := range hs {
-					if has(&hs[i], id) {
-						ob.props = append(ob.props, c13Ev{CB: id, X: c13Tgt{K: "cell", A: env.hdrID, B: i + 1}})
-					}
-				}
-			}
-		}
-	}
 	if !buildOnly {
-		readBack()
+		x.readBack()
 	}
 	return ob, env
 }
@@ -1737,6 +1848,9 @@ func c13Complete(pr *c13Prep, ob *c13Obs, passes int) string {
 		if !ok {
 			code = 2
 		}
+		if origin < 0 {
+			code = 0 // made (and accepted) through the other table of a pair
+		}
 		ob.Reg = append(ob.Reg, code)
 	}
 	if passes < 0 {
@@ -1788,6 +1902,9 @@ func c13Run(spec json.RawMessage) CaseOut {
 	var sp C13Spec
 	if err := json.Unmarshal(spec, &sp); err != nil {
 		panic(err)
+	}
+	if sp.Peer != nil {
+		return c13RunPair(sp, spec)
 	}
 	pr := c13Prepare(sp)
 	sp = pr.sp
@@ -2303,6 +2420,33 @@ func c13Gen(r *RNG, tier string) []json.RawMessage {
 	c13GenNested(r, tier, func(sp C13Spec) { out = append(out, mustJSON(sp)) })
 	var long []json.RawMessage
 	c13GenLong(r, tier, func(sp C13Spec) { long = append(long, mustJSON(sp)) })
+	// the dense histories and the pairs of tables are large cases too: spread like the long tables
+	{
+		saved := out
+		out = nil
+		c13GenDense(r, tier, add)
+		c13GenShared(r, tier, func(sp C13Spec) { out = append(out, mustJSON(sp)) })
+		// one family after the other, then dealt out with a stride so that
+		// every stretch of the run gets its share of each
+		all := append(long, out...)
+		n := len(all)
+		gcd := func(a, b int) int {
+			for b != 0 {
+				a, b = b, a%b
+			}
+			return a
+		}
+		p := n*618/1000 + 1
+		for gcd(p, n) != 1 {
+			p++
+		}
+		mixed := make([]json.RawMessage, n)
+		for k := 0; k < n; k++ {
+			mixed[k] = all[(k*p)%n]
+		}
+		long = mixed
+		out = saved
+	}
 	// random histories
 	n := 400
 	if tier == "thorough" {
@@ -2905,11 +3049,58 @@ func c13Shrink(spec json.RawMessage) []json.RawMessage {
 	if err := json.Unmarshal(spec, &sp); err != nil {
 		return nil
 	}
+	if sp.Peer != nil {
+		return c13ShrinkPair(sp)
+	}
 	var out []json.RawMessage
 	emit := func(c C13Spec) {
 		if c13WF(c.Ops) {
 			c.Inner = sp.Inner // reductions of the outer table keep the inner one
 			out = append(out, mustJSON(c))
+		}
+	}
+	// registrations in bulk: one whole callback list, the later half of a long
+	// one, everything registered for one time
+	{
+		without := func(drop map[int]bool) []C13Op {
+			var ops []C13Op
+			for i, o := range sp.Ops {
+				if !drop[i] {
+					ops = append(ops, o)
+				}
+			}
+			return ops
+		}
+		lists := map[string][]int{}
+		var keys []string
+		for i, o := range sp.Ops {
+			if o.K != "reg" {
+				continue
+			}
+			for _, k := range []string{fmt.Sprint(o.Owner, "/", o.R, "/", o.N, "/", c13Norm(o.Owner, o.Target), "/", o.Time), "time/" + o.Time} {
+				if _, ok := lists[k]; !ok {
+					keys = append(keys, k)
+				}
+				lists[k] = append(lists[k], i)
+			}
+		}
+		for _, k := range keys {
+			idx := lists[k]
+			if len(idx) < 2 {
+				continue
+			}
+			drop := map[int]bool{}
+			for _, i := range idx {
+				drop[i] = true
+			}
+			emit(C13Spec{Ops: without(drop), Passes: sp.Passes, Via: sp.Via})
+			if len(idx) >= 4 {
+				half := map[int]bool{}
+				for _, i := range idx[len(idx)/2:] {
+					half[i] = true
+				}
+				emit(C13Spec{Ops: without(half), Passes: sp.Passes, Via: sp.Via})
+			}
 		}
 	}
 	for i := range sp.Ops {
@@ -2993,8 +3184,10 @@ func init() {
 			"every invocation also reports what it can see - the number of cells of the row handed over, or of the row of the cell handed over - compared with the row 'with its cells' as the operation leaves it (add time) and as the table has it (render time); " +
 			"seeded random histories of up to 12 operations with up to 4 registrations (kinds, failures, panics, re-registered objects, handles, cell values, rows past the column capacity); " +
 			"a case is non-trivial when at least one invocation is expected or a registration must be refused; distinct = distinct spec; " +
-			"cell values carrying up to 5 callbacks in one time list are copied (append capacity boundaries)",
-		Exhaustive: "all 48 owner-kind x time x target combinations x every owner instance x {earliest, last} registration point on 16 shapes; equal-callback pairs on every firing combination x shape; handle scenarios 4 widening methods x {10,12} columns x columns 0..2 x 5 column combinations x 4 registration points; failing pre-cell x 24 partner registrations x 2 orders on first and last cell of every shape; cell-value scenarios (stamp: 0-2 prior callbacks x 2 targets x 2 kinds x 3 layouts x 2 orders; moved cell: 6 sources x 2 positions x 3 times x 2 registration points x attached/detached); panicking callback on every firing render-time combination x shape",
+			"cell values carrying up to 5 callbacks in one time list are copied (append capacity boundaries); " +
+			"dense registrations: every callback list that takes part in the per-cell sequence and in the additions (table cell / itself / row, each column's cell / itself, each row's cell / itself, each cell's) holds several callbacks at once - 1-5, 8, 9, 17 in the table's lists, 0-4 in each column's (unequal between neighbouring columns), 0-3 in the row's and the cell's - per time, on tables of 2-3 columns x 2-3 rows (+header), rows built in three ways, registered as soon as the owner exists or after the table is complete, in three orders; seeded random fillings of all lists of 1-4 x 1-4 tables (up to 48 registrations); " +
+			"two tables sharing rows: a *Row built once (detached / appended and filled / from items) and added to two tables, in both orders, each table with recording callbacks of its own - every (owner kind x time x target) registration upon either table or both, upon the shared row and its cell made through either table before and after the row is shared - both tables rendered (1-2 passes each, this table first / the other first / alternating, directly and through renderers), an invocation is logged by the table being built or rendered at that moment and each table's log is judged against its own history (the other table's AddRow of a shared row is the operation OOtherAddRow of this one's: no event, c13_other_table); seeded random pair histories; outside: cells added to a row after it is shared, column-level cell callbacks of the two render times in pair histories",
+		Exhaustive: "all 48 owner-kind x time x target combinations x every owner instance x {earliest, last} registration point on 16 shapes; equal-callback pairs on every firing combination x shape; handle scenarios 4 widening methods x {10,12} columns x columns 0..2 x 5 column combinations x 4 registration points; failing pre-cell x 24 partner registrations x 2 orders on first and last cell of every shape; cell-value scenarios (stamp: 0-2 prior callbacks x 2 targets x 2 kinds x 3 layouts x 2 orders; moved cell: 6 sources x 2 positions x 3 times x 2 registration points x attached/detached); panicking callback on every firing render-time combination x shape; dense lists: 4 times x 10 count patterns x {2,3} columns x {2,3} rows; shared rows: 8 layouts x every combination x 3-5 placements of the registration",
 		Gen:        c13Gen,
 		Run:        c13Run,
 		Shrink:     c13Shrink,
